@@ -401,11 +401,17 @@ func genSides(r rnd) reuseIn {
 	return reuseIn{Kind: "reuse-sides", G: g, Salt: r.Intn(1 << 20), TMode: tm(r), Runs: mkRuns(r, order, sets, r.Intn(4))}
 }
 
+// tm draws a timestamp mode (main.go, caseIn.TMode): growing dates in half of the cases, else one of planlib.TimesFor / extraTimes;
+// zone offsets, author date != committer date and odd names in a third
 func tm(r rnd) int {
-	if r.Intn(2) == 0 {
-		return 0
+	z := 0
+	if r.Intn(3) == 0 {
+		z = 100
 	}
-	return 1 + r.Intn(pl.NumTimeModes-1)
+	if r.Intn(2) == 0 {
+		return z
+	}
+	return z + 1 + r.Intn(numTimeModes-1)
 }
 
 func baseGraph(r rnd, c *Config) pl.Graph {
@@ -715,7 +721,7 @@ func reuseStreams(c *Config, workers int) {
 				}
 				runs = append(runs, selRun{Mode: mode, Opts: opts, Dist: m % 4, Sel: inOrder(pl.Identity(n), s)})
 			}
-			ins = append(ins, reuseIn{Kind: fmt.Sprintf("reuse-ex%d", n), G: g, Salt: r.Intn(1 << 20), TMode: (m / 4) % pl.NumTimeModes, Runs: runs})
+			ins = append(ins, reuseIn{Kind: fmt.Sprintf("reuse-ex%d", n), G: g, Salt: r.Intn(1 << 20), TMode: (m/4)%numTimeModes + 100*((m/3)%2), Runs: runs})
 		}
 	}
 	flush()
